@@ -229,8 +229,25 @@ func sortedKeys(m map[string]string) []string {
 
 var _ = strconv.Itoa
 
+// generators are registered from init() functions, one per translated topic (file), so that adding
+// a translator never edits a shared file.
+var generators = map[string]func(){}
+
+func register(name string, f func()) {
+	if _, dup := generators[name]; dup {
+		die("duplicate generator %s", name)
+	}
+	generators[name] = f
+}
+
 func main() {
 	flag.Parse()
-	genGroupsTable()
-	genAll()
+	names := make([]string, 0, len(generators))
+	for n := range generators {
+		names = append(names, n)
+	}
+	sort.Strings(names)
+	for _, n := range names {
+		generators[n]()
+	}
 }
